@@ -49,6 +49,9 @@ def proof_items():
     return [ProofItem(misc.existing_and_missing, gen=misc.em_gen, call=misc.em_call),
             # when a function takes an array whole, all its axes are reduced (and may not be fixed)
             ProofItem(misc.is_parameter_reduced, gen=misc.ipr_gen),
+            # ... or it takes some of its axes whole through ':' - those axes (by name) are the reduced ones
+            ProofItem(misc.is_parameter_partially_reduced, gen=misc.ipr_gen),
+            ProofItem(misc.get_partially_reduced_axes, gen=misc.pra_gen),
             # element-scope functions: one learner per *selected* flat index (not per position)
             ProofItem(adaptive.split_sequence_learner, gen=adaptive.gen, call=adaptive.call)]
 
